@@ -74,6 +74,62 @@ WIDTH_BOUNDS = sorted(set(
      if (2**w + dl) * 10**k <= MAXC]))
 
 
+# quotients of a machine-word bound by a power of ten / five, and values that put such a quotient into the high
+# 64-bit limb: the boundaries of hand-written multi-limb fast paths
+LIMB_BOUNDS = sorted(set(
+    [sg * (v + dl) for w in (32, 63, 64, 127, 128) for k in range(0, 20) for base in (10, 5)
+     for v in ((2**w - 1) // base**k, -(-(2**w) // base**k)) for dl in (-1, 0, 1) for sg in (1, -1)
+     if 0 < v + dl <= MAXC] +
+    [sg * (((2**64 - 1) // 10**k + dh) * 2**64 + lo) for k in range(1, 20) for dh in (-1, 0, 1)
+     for lo in (0, 2**63, 2**64 - 1, 2**64 - 10**k if 10**k < 2**64 else 1) for sg in (1, -1)
+     if 0 < ((2**64 - 1) // 10**k + dh) * 2**64 + lo <= MAXC] +
+    [sg * (j * 2**64 - 1 + dl) for j in (1, 2, 3, 5, 2**20 + 1, 2**62 + 1) for dl in (0, 1) for sg in (1, -1)
+     if j * 2**64 - 1 + dl <= MAXC]))
+
+
+def max_quot_products(rng):
+    """(x, px, y, py, r, s): x*y = 10^s * MAXC + r with 0 <= r < 10^s and px + py = 18 + s: the floor of the exact
+    product at 18 digits is exactly i128::MAX and r decides whether rounding up overflows"""
+    out = []
+    for sft in range(1, 19):
+        T = 10**sft
+        found = 0
+        for y in [T + j for j in (1, 2, 3, 5, 7, 11, 13, 17, 29, 101, T // 2 + 1, T // 3, T - 1)]:
+            if not T <= y < 2 * T:
+                continue
+            r = (-T * MAXC) % y
+            if r < T and (T * MAXC + r) % y == 0:
+                x = (T * MAXC + r) // y
+                if x <= MAXC:
+                    py = min(18, sft + rng.randrange(0, 19 - sft) if sft < 18 else 18)
+                    py = max(py, sft)              # y has up to sft+1 digits; any split with px + py = 18 + s works
+                    px = 18 + sft - py
+                    if 0 <= px <= 18:
+                        out.append((x, px, y, py, r, sft)); found += 1
+            if found >= 4:
+                break
+    return out
+
+
+def max_quot_divisions(rng):
+    """(cx, k, cy, r): cx * 10^k = cy * MAXC + r with 0 <= r < cy: the floor quotient is exactly i128::MAX"""
+    out = []
+    for k in range(1, 37):
+        T = 10**k
+        found = 0
+        for cy in [T - j for j in (1, 3, 7, 9, 11, 13, 27, 99, T // 3)] + [9, 7, 3, 11, 13]:
+            if not 1 < cy <= MAXC:
+                continue
+            r = (-cy * MAXC) % T
+            if r < cy and (cy * MAXC + r) % T == 0:
+                cx = (cy * MAXC + r) // T
+                if 0 < cx <= MAXC:
+                    out.append((cx, k, cy, r)); found += 1
+            if found >= 3:
+                break
+    return out
+
+
 MODE_DEPENDENT = re.compile(r"^(dd|di|id|ii)\.(mul|cmul|div|cdiv|divr|mulr|quant)\b|^un\.(round|cround)\b|^fmt\.|^w\.(divr|sdr|mdr)\b|^thr\.|^frm\.")
 
 
@@ -85,6 +141,10 @@ def vary_modes(lines, rng):
         t = l.split(" ", 2)
         if len(t) == 3 and t[1] == "5" and not MODE_DEPENDENT.match(t[0]) and rng.randrange(2):
             l = "%s %d %s" % (t[0], rng.choice((0, 1, 2, 3, 4, 6, 7)), t[2])
+        elif len(t) == 3 and t[1].isdigit() and int(t[1]) < 8 and MODE_DEPENDENT.match(t[0]) \
+                and not t[0].startswith(("thr.", "frm.")) and rng.randrange(8) == 0:
+            # the thread's mode must also survive another thread's set_default calls (mode + 8, see the harness)
+            l = "%s %d %s" % (t[0], int(t[1]) + 8, t[2])
         out.append(l)
     return out
 
@@ -201,6 +261,15 @@ def gen_C01(rng, n):
                     c = rng.choice((0, 1, -1, MAXC, -MAXC, MAXC - i * 10**p if abs(MAXC - i * 10**p) <= MAXC else 7))
                     out.append(di(op, ty, 5, c, p, i))
                     out.append(id_(op, ty, 5, i, c, p))
+    for c in LIMB_BOUNDS[::11]:
+        for (p, q) in ((0, 1), (0, 17), (0, 18), (18, 0)):
+            for op in ops:
+                out.append(dd(op, 5, c, p, rng.choice((1, -1, 7, MAXC)), q))
+                out.append(dd(op, 5, rng.choice((1, -7)), q, c, p))
+        for ty in ("i128",):
+            for p in (1, 9, 17, 18):
+                for op in ops:
+                    out.append(di(op, ty, 5, 5, p, c)); out.append(id_(op, ty, 5, c, -3, p))
     # every integer-operand form with the exact result at either end of the i128 range
     for ty in TYNAMES:
         lo, hi = ITYPES[ty]
@@ -319,6 +388,15 @@ def gen_C02(rng, n):
                     if P % x2 == 0 and P // x2 <= MAXC:
                         out.append("w.i256 %d %s %s %s" % (rng.choice(MODES), hx(P // x2), hx(x2), hx(10**sh)))
                         out.append("w.i256 %d %s %s %s" % (rng.choice(MODES), hx(-(P // x2)), hx(x2), hx(10**sh)))
+    for (x, px, y, py, r, sft) in max_quot_products(rng):
+        for m in MODES:
+            for (sx, sy) in ((1, 1), (-1, -1), (-1, 1)):
+                out.append(dd("mul", m, sx * x, px, sy * y, py))
+                out.append(dd("cmul", m, sx * x, px, sy * y, py))
+                out.append(dd("mulr", m, sx * x, px, sy * y, py, 18))
+    for c in LIMB_BOUNDS[::7]:
+        for y in (3, 10**9 + 7, 2**64 + 1):
+            out.append(dd("mul", rng.choice(MODES), c, rng.randrange(19), y, rng.randrange(19)))
     # results at the representability boundary
     for m in MODES:
         for delta in (-1, 0, 1):
@@ -440,6 +518,21 @@ def gen_C03(rng, n):
                 out.append(di(op, ty, rng.choice(MODES), c, p, i))
                 out.append(id_(op, ty, rng.choice(MODES), i, c, p))
                 out.append(id_(op, ty, 5, i, 10**p, p))
+    for (cx, k, cy, r) in max_quot_divisions(rng):
+        # cx / cy scaled by 10^k: cx at scale px, cy at scale py with 18 + py - px = k
+        for py in range(0, 19):
+            px = 18 + py - k
+            if 0 <= px <= 18:
+                for m in MODES:
+                    for (sx, sy) in ((1, 1), (-1, -1), (1, -1)):
+                        out.append(dd("div", m, sx * cx, px, sy * cy, py))
+                        out.append(dd("cdiv", m, sx * cx, px, sy * cy, py))
+                break
+        for ty in ("i128", "i64", "u64", "i32"):
+            lo, hi = ITYPES[ty]
+            if lo <= cy <= hi and 0 <= 18 - k <= 18:
+                for m in MODES:
+                    out.append(di("div", ty, m, cx, 18 - k, cy)); out.append(di("cdiv", ty, m, -cx, 18 - k, cy))
     while len(out) < n:
         k = rng.randrange(10)
         m = rng.choice(MODES)
@@ -537,6 +630,33 @@ def gen_C04(rng, n):
                 out.append(id_("divr", ty, m, i, coef(rng) or 1, scale(rng), nn))
                 out.append(di("quant", ty, m, coef(rng), scale(rng), j))
                 out.append(id_("quant", ty, m, i, coef(rng) or 1, scale(rng)))
+    for (cx, k, cy, r) in max_quot_divisions(rng):
+        for nn in (0, 5, 18):
+            for py in range(0, 19):
+                px = nn + py - k
+                if 0 <= px <= 18:
+                    for m in MODES:
+                        out.append(dd("divr", m, cx, px, cy, py, nn)); out.append(dd("divr", m, -cx, px, cy, py, nn))
+                    for ty in ("i128", "i64", "u64"):
+                        lo, hi = ITYPES[ty]
+                        if py == 0 and lo <= cy <= hi:
+                            out.append(di("divr", ty, rng.choice(MODES), cx, px, cy, nn))
+                    break
+    for (x, px, y, py, r, sft) in max_quot_products(rng):
+        for m in MODES:
+            out.append(dd("mulr", m, x, px, y, py, 18)); out.append(dd("mulr", m, -x, px, -y, py, 18))
+    # remainders at a distance of a multiple of 2^32 / 2^63 / 2^64 from half the divisor (shift >= 20 digits)
+    for sh in (20, 25, 30, 36):
+        half = 5 * 10 ** (sh - 1)
+        for mlt in (2**63, 2**64, 2**32, 3 * 2**63):
+            for sgn in (1, -1):
+                r = half - sgn * mlt
+                if 0 < r < 10**sh:
+                    for q in (1, 2, 7, -1, -2):
+                        c = q * 10**sh + r
+                        if abs(c) <= MAXC:
+                            for m in MODES:
+                                out.append(un("round", m, c, 18, 18 - sh)) if sh <= 36 and -128 <= 18 - sh else None
     while len(out) < n:
         k = rng.randrange(12)
         m = rng.choice(MODES)
@@ -615,6 +735,20 @@ def gen_C05(rng, n):
                 out.append("w.divr %d %s %s" % (m, hx(num), hx(den)))
                 out.append("w.divr %d %s %s" % (m, hx(-num), hx(-den)))
                 out.append("w.divr %d %s %s" % (m, hx(num), hx(-den)))
+    for sh in (20, 21, 27, 36, 38):
+        half = 5 * 10 ** (sh - 1)
+        for mlt in (2**63, 2**64, 2**32, 3 * 2**63, 2**65):
+            for sgn in (1, -1):
+                r = half - sgn * mlt
+                if 0 < r < 10**sh:
+                    for q in (0, 1, 2, -1, -2):
+                        c = q * 10**sh + r
+                        if abs(c) <= MAXC:
+                            for p in (18, 10, 0):
+                                nn = p - sh
+                                if -128 <= nn:
+                                    for m in MODES:
+                                        out.append(un("round", m, c, p, nn)); out.append(un("cround", m, c, p, nn))
     while len(out) < n:
         m = rng.choice(MODES)
         p = scale(rng)
@@ -664,6 +798,13 @@ def gen_C08(rng, n):
                             for op in ("eq", "pcmp", "lt", "min"):
                                 out.append(dd(op, 5, a, p, b, p + d))
                                 out.append(dd(op, 5, b, p + d, a, p))
+    for c in LIMB_BOUNDS[::25]:
+        for d in (1, 4, 9, 10, 18):
+            for p in (0,):
+                for b in (c * 10**d, 1, -1, MAXC, -MAXC, c):
+                    if abs(b) <= MAXC:
+                        for op in ("eq", "pcmp", "lt", "min", "max"):
+                            out.append(dd(op, 5, c, p, b, p + d)); out.append(dd(op, 5, b, p + d, c, p))
     # equal values in different representations
     for k in range(19):
         for j in range(19 - k):
@@ -757,6 +898,21 @@ def gen_C10(rng, n):
                             for sx in (1, -1):
                                 out.append(dd(op, 5, sx * x, p, yc, q))
                                 out.append(dd(op, 5, sx * x, p, -yc, q))
+    for op in ops:
+        for (p, q) in ((0, 18), (0, 17), (2, 18), (0, 9)):
+            k = q - p
+            for g in (2, 20, 7, 125, 17, 3):
+                for e in range(36 - k, 39 - k):
+                    yc = g * 10 ** (e + k - len(str(g)) + 1)
+                    if not MAXC // 10 < yc <= MAXC or yc % 10**k:
+                        continue
+                    yv = yc // 10**k                                   # value of the divisor (integral)
+                    for qq in (11, 21, 31, 101, 1, 10, 12, 9):
+                        for r in (0, 1, yv - 1):
+                            x = yv * qq + r
+                            if 0 < x <= MAXC:
+                                for sx in (1, -1):
+                                    out.append(dd(op, 5, sx * x, p, yc, q)); out.append(dd(op, 5, sx * x, p, -yc, q))
     # divisor scaled beyond i128
     for op in ops:
         for (p, q) in ((3, 0), (18, 0), (18, 17)):
@@ -810,6 +966,17 @@ def gen_C14(rng, n):
         for p in (0, 1, 2, 9, 18):
             for ty in ("i128", "i64", "u64", "i32", "u8"):
                 out.append("un.toint.%s 5 %s %d" % (ty, hx(c), p))
+    # integral values v written with n trailing zeros, v at the quotient of a word bound by 5^n / 10^n
+    for nn in range(1, 19):
+        for v in set(((2**64 - 1) // 5**nn, (2**64) // 5**nn + 1, (2**64 - 1) // 10**nn, (2**63) // 5**nn, (2**32 - 1) // 5**nn if 5**nn < 2**32 else 1)):
+            for dl in (-1, 0, 1):
+                c = (v + dl) * 10**nn
+                if 0 < c <= MAXC:
+                    for ty in ALL_TO:
+                        out.append("un.toint.%s 5 %s %d" % (ty, hx(c), nn)); out.append("un.toint.%s 5 %s %d" % (ty, hx(-c), nn))
+    for c in LIMB_BOUNDS[::3]:
+        for p in (0, 1, 18):
+            out.append("un.toint.i128 5 %s %d" % (hx(c), p)); out.append("un.toint.u64 5 %s %d" % (hx(c), p))
     for w in (31, 32, 63, 64):
         for dl in range(-3, 4):
             for p in (1, 3, 18):
@@ -877,6 +1044,20 @@ def gen_C15(rng, n):
             if 0 < v <= MAXC:
                 out.append("w.mag 5 %s" % hx(v))
                 out.append(un("mag", 5, rng.choice((1, -1)) * v, rng.randrange(19)))
+    # integral parts whose low 64-bit limb is all ones (carry across the limb when stepping away from zero)
+    for j in (1, 2, 3, 5, 7, 2**20 + 1, 2**40 + 3):
+        for dl in (0, 1):
+            q = j * 2**64 - 1 + dl
+            for p in (1, 3, 9, 18):
+                for frac in (1, 10**p // 2, 10**p - 1, 0):
+                    c = q * 10**p + frac
+                    if c <= MAXC:
+                        for op in ("floor", "ceil", "trunc", "fract"):
+                            out.append(un(op, 5, c, p)); out.append(un(op, 5, -c, p))
+    for c in LIMB_BOUNDS[::3]:
+        for p in (1, 9, 18):
+            for op in ("floor", "ceil", "trunc", "fract", "mag"):
+                out.append(un(op, 5, c, p))
     # the 17-bit kernel itself (hook): every threshold neighbourhood, then a stride over 1..99999
     for t in (1, 9, 10, 11, 99, 100, 101, 999, 1000, 1001, 9999, 10000, 10001, 99998, 99999):
         out.append("w.lt5 5 %x" % t)
@@ -1362,6 +1543,34 @@ def gen_C13(rng, n):
         for d in (-1, 0, 1):
             f64(b + d)
         f32(bits32(rng.randrange(1, 2**22) / 2.0**19))
+    # m / 2^k with the digits after the 18th just above / below / at one half: solve m * 5^18 = t (mod 2^(k-18))
+    # for t at small distances from 2^(k-19) (the distance, relative to one unit, is d / 2^(k-18))
+    inv5 = {}
+    for k in list(range(20, 72, 3)) + [49, 52, 55, 60, 63, 64, 65]:
+        w = k - 18
+        M = 1 << w
+        inv = pow(5**18, -1, M)
+        for dist in (1, 2, 3, 1 << (w // 2), (1 << w) // 10**9 + 1, (1 << w) // 10**6 + 1):
+            for sgn in (1, -1, 0):
+                t = (M // 2 + sgn * dist) % M
+                m0 = (t * inv) % M
+                for hi in (0, 1, rng.getrandbits(12)):
+                    m = m0 + hi * M
+                    while m and m < (1 << 52):
+                        m += M * max(1, ((1 << 52) - m) // M)
+                    if (1 << 52) <= m < (1 << 53):
+                        e = 1023 + 52 - k
+                        if 1 <= e <= 2046:
+                            f64((rng.randrange(2) << 63) | (e << 52) | (m - (1 << 52)))
+                    m32 = m0 if w <= 24 else None
+                    if m32 is not None:
+                        mm = m0
+                        while mm and mm < (1 << 23):
+                            mm += M * max(1, ((1 << 23) - mm) // M)
+                        if (1 << 23) <= mm < (1 << 24):
+                            e = 127 + 23 - k
+                            if 1 <= e <= 254:
+                                f32((rng.randrange(2) << 31) | (e << 23) | (mm - (1 << 23)))
     while len(out) < n:
         k = rng.randrange(6)
         if k == 0:
@@ -1432,6 +1641,15 @@ def gen_C17(rng, n):
                                 for op in ("eq", "lt", "add", "sub", "crem", "cmul"):
                                     out.append("frm.di_%s.%s 5 %s %d %s 0" % (op, ty, hx(c), d, hx(i)))
                                     out.append("frm.id_%s.%s 5 %s %s %d 0" % (op, ty, hx(i), hx(c), d))
+    for (cx, k, cy, r) in max_quot_divisions(rng):
+        for ty in ("i128", "i64", "u64", "i32", "u8"):
+            lo, hi = ITYPES[ty]
+            if lo <= cy <= hi and 0 <= 18 - k <= 18:
+                for m in MODES:
+                    for op in ("div", "cdiv"):
+                        out.append("frm.di_%s.%s %d %s %d %s 0" % (op, ty, m, hx(cx), 18 - k, hx(cy)))
+                        out.append("frm.di_%s.%s %d %s %d %s 0" % (op, ty, m, hx(-cx), 18 - k, hx(cy)))
+                    out.append("frm.di_divr.%s %d %s %d %s 18" % (ty, m, hx(cx), 18 - k, hx(cy)))
     # K1: integer forms of div_rounded with n > 18 disagree with the Decimal form
     out.append("frm.di_divr.i32 5 1 0 3 19")
     # the integer-operand bodies against the model (same generators as C01-C04, C08, C10)
@@ -1519,6 +1737,18 @@ def gen_C20(rng, n):
                         out.append(dd("mul", m, sg * x, 1, y, 18)); out.append(dd("cmul", m, sg * x, 1, y, 18))
                         out.append(dd("mulr", m, sg * x, 1, y, 18, 18))
                         out.append("w.mdr %d %s %s %x" % (m, hx(sg * x), hx(y), 1))
+    for (x, px, y, py, r, sft) in max_quot_products(rng)[::3]:
+        for m in MODES:
+            out.append(dd("mul", m, x, px, y, py)); out.append(dd("cmul", m, -x, px, -y, py)); out.append(dd("mulr", m, x, px, y, py, 18))
+    for (cx, k, cy, r) in max_quot_divisions(rng)[::3]:
+        for py in range(0, 19):
+            px = 18 + py - k
+            if 0 <= px <= 18:
+                for m in MODES:
+                    out.append(dd("div", m, cx, px, cy, py)); out.append(dd("cdiv", m, cx, px, cy, py))
+                break
+    for c in LIMB_BOUNDS[::5]:
+        out.append(dd("add", 5, c, 0, 1, 18)); out.append(dd("cadd", 5, c, 1, -1, 18)); out.append(dd("sub", 5, 1, 17, c, 0))
     # K1 (recorded finding, also a C20 matter): integer-operand div_rounded forms n + scale in u8 without a guard
     out.append("id.divr.i64 5 7 3 2 255"); out.append("ii.divr.i32 5 1 3 250"); out.append("di.divr.i32 5 1 5 3 251")
     return out
